@@ -539,6 +539,12 @@ def worker_env(seed, cases, size):
         seed, cases, size)
     env["ASAN_OPTIONS"] = "detect_leaks=0:abort_on_error=0:" \
         "allocator_may_return_null=1"
+    if cases > 100:
+        # long searches: ASan remembers one stack per allocation and per
+        # deallocation; with the default depth (30) the depot of distinct
+        # stacks grows by ~100 KB per case (20 GB for a 200000-case worker)
+        # and the run is 2.5 times slower.  Replays keep the full depth.
+        env["ASAN_OPTIONS"] += ":malloc_context_size=3:quarantine_size_mb=64"
     env["UBSAN_OPTIONS"] = "print_stacktrace=1"
     env["TSAN_OPTIONS"] = "halt_on_error=1:exitcode=66:report_signal_unsafe=0"
     return env
@@ -556,7 +562,7 @@ def run_fuzz(fz, pid, tier, seed, scratch, failures):
         os.makedirs(corpus, exist_ok=True)
         with open(os.path.join(corpus, "seed0"), "wb") as f:
             f.write(bytes([w, 7, 3, 1, 4, 1, 5, 9, 2, 6] * 8))
-        env = worker_env(1, 1, 1)
+        env = worker_env(1, 1000, 1)
         env["VERIF_FUZZ_OUT"] = scratch
         fseed = splitmix(seed, pid, tier, "fuzz", w) % 2000000000 + 1
         cmd = [exe, "-runs=%d" % fz["runs"], "-seed=%d" % fseed,
